@@ -66,6 +66,14 @@ class Tree:
         self.w("raw.bin", bytes([0, 1, 2, 255, 254, 10]))
         self.w("both.libsonnet", "{ both: (import 'rel.libsonnet').up }")
         self.w("unused.libsonnet", "{ never: import 'sub/inner.libsonnet' }")
+        # one file referring to the same path first as data, then as code (and the other way round); what that
+        # path imports is reachable through nothing else
+        self.w("dual.libsonnet", "{ s: std.length(importstr 'deep.libsonnet'), v: (import 'deep.libsonnet').d }")
+        self.w("deep.libsonnet", "{ d: (import 'deeper.libsonnet').z }")
+        self.w("deeper.libsonnet", "{ z: 'deeper' }")
+        self.w("dual2.libsonnet", "{ v: (import 'deep2.libsonnet').d, b: std.length(importbin 'deep2.libsonnet') }")
+        self.w("deep2.libsonnet", "{ d: (import 'deeper2.libsonnet').z }")
+        self.w("deeper2.libsonnet", "{ z: 'deeper2' }")
         self.w("e_code.jsonnet", "{ from_file: true, nested: (import 'rel.libsonnet').v }")
         self.w("e_str.txt", "ext str from file é\n")
         self.w("t_code.jsonnet", "[1, (import 'sub/inner.libsonnet').x]")
@@ -77,6 +85,10 @@ class Tree:
             "sub/inner.libsonnet": [("import", "../rel.libsonnet"), ("importstr", "../blob.txt")],
             "both.libsonnet": [("import", "rel.libsonnet")],
             "unused.libsonnet": [("import", "sub/inner.libsonnet")],
+            "dual.libsonnet": [("importstr", "deep.libsonnet"), ("import", "deep.libsonnet")],
+            "deep.libsonnet": [("import", "deeper.libsonnet")],
+            "dual2.libsonnet": [("import", "deep2.libsonnet"), ("importbin", "deep2.libsonnet")],
+            "deep2.libsonnet": [("import", "deeper2.libsonnet")],
             "e_code.jsonnet": [("import", "rel.libsonnet")],
             "t_code.jsonnet": [("import", "sub/inner.libsonnet")],
         }
@@ -190,8 +202,9 @@ def make_config(rng, tree, k):
                ("import", "shared.libsonnet", "(import 'shared.libsonnet').which"), ("import", "lib0.libsonnet", "(import 'lib0.libsonnet').n"),
                ("import", "only1.libsonnet", "import 'only1.libsonnet'"), ("import", "chain.libsonnet", "import 'chain.libsonnet'"),
                ("importstr", "data1.txt", "importstr 'data1.txt'"), ("import", "d2/chain.libsonnet", "(import 'd2/chain.libsonnet').c"),
-               ("import", "nope.libsonnet", "import 'nope.libsonnet'")]
-    weights = [3, 3, 2, 1, 2, 2, 3, 2, 2, 2, 1, 2, 0.3]
+               ("import", "nope.libsonnet", "import 'nope.libsonnet'"),
+               ("import", "dual.libsonnet", "(import 'dual.libsonnet').v"), ("import", "dual2.libsonnet", "(import 'dual2.libsonnet')")]
+    weights = [3, 3, 2, 1, 2, 2, 3, 2, 2, 2, 1, 2, 0.3, 2, 1.5]
     for i in range(rng.randrange(0, 5)):
         kind, lit, expr = rng.choices(choices, weights)[0]
         imps.append((kind, lit))
